@@ -149,3 +149,14 @@ check("C19",
       "Trusted: z3; abstract measure/copula; for the chain comparison margins carry no mass outside the truncation; brentq contract; exp axioms. "
       "Outside: 3-d chain sum, Brent's iterations, Monte-Carlo default times (C17 covers the default-time underlying).",
       TECH, "DESIGN.md section 3 C19")
+
+check("C20",
+      "Bounded model checking of the real parameter classes under symbolic assignment histories followed by initialisation() (every cached field equals "
+      "that of an object constructed with the final values; each declared constraint raises at construction and on assignment and leaves the value "
+      "unchanged) and of the real calibration wiring with brentq and the COS pricer as contract stubs: the objective prices a model whose observable "
+      "state equals that of a model constructed directly with the candidate value, the result lies in the interval, the returned model has the input's "
+      "type and observable state of a directly constructed one, reprices the Black-Scholes target, and the input model is untouched.",
+      "Trusted: z3; brentq contract; COS price as an uninterpreted function of the observable parameter state; gamma/pow UFs; Black-Scholes closed form "
+      "evaluated concretely. Bounds: assignment sequences <= 2/3, HEM and CGMY default calibrations. Outside: numerical repricing accuracy (C18), "
+      "Merton/VG calibrations.",
+      TECH, "DESIGN.md section 3 C20")
